@@ -192,8 +192,13 @@ func r13c(c *core.Ctx) {
 			if !ok {
 				continue
 			}
-			if bo, ok := iff.Cond.(*ssa.BinOp); ok && bo.Op == token.GTR && bo.X == ssa.Value(inc) && strings.HasSuffix(core.Expr(bo.Y), ".maxConcurrent") {
-				over = b.Succs[0]
+			// max < count (any spelling): the edge on which it holds is the over-limit edge
+			if cm, ok := core.CmpOf(iff.Cond); ok && cm.Op == "<" && cm.YV == ssa.Value(inc) && strings.HasSuffix(cm.X, ".maxConcurrent") {
+				if cm.Neg {
+					over = b.Succs[1]
+				} else {
+					over = b.Succs[0]
+				}
 			}
 		}
 		if over == nil {
@@ -249,7 +254,7 @@ func r13d(c *core.Ctx) {
 	// the patterns below are written with `cc.` and rewritten to that rendering
 	ccBase := "cc"
 	core.EachInstr(fn, func(_ *ssa.BasicBlock, _ int, in ssa.Instruction) {
-		if fa, ok := in.(*ssa.FieldAddr); ok && core.FieldAddrRef(fa).Struct != nil && core.FieldAddrRef(fa).Struct.Obj().Name() == "connCtx" {
+		if fa, ok := in.(*ssa.FieldAddr); ok && core.FieldAddrRef(fa).Struct != nil && core.StructName(core.FieldAddrRef(fa).Struct) == "connCtx" {
 			ccBase = core.Expr(fa.X)
 		}
 	})
